@@ -8,6 +8,7 @@ use fcgi_verif::props;
 
 fn main() {
     engine::install_panic_hook();
+    engine::install_tracing();
     let args: Vec<String> = std::env::args().skip(1).collect();
     let all = props::all();
 
